@@ -2,7 +2,7 @@
 \* bounded instance of the union contract itself: the incremental ghost `top` equals the declarative ResultTop for every
 \* sequence of inputs (UInv), for lg_max_k 1..3 against inputs of lg_k 1..3
 EXTENDS HllUnion
-Sk(lgK, mode, S) == [lgK |-> lgK, mode |-> mode, fed |-> IF mode = HLL THEN {} ELSE S, top |-> CouponTop(S, lgK), empty |-> S = {}]
+Sk(lgK, mode, S) == [lgK |-> lgK, mode |-> mode, fed |-> IF mode = HLL THEN {} ELSE S, top |-> CouponTop(S, lgK), empty |-> S = {}, big |-> FALSE]
 A == {<<1, 2>>, <<6, 1>>}
 B == {<<3, 3>>, <<5, 1>>}
 Catalogue == {Sk(2, 0, {}), Sk(1, HLL, {})}
